@@ -548,6 +548,16 @@ theorem sf_lifecycle_leaves_callers_objects (orc : Oracle) (calls : List (List S
     ∀ l, l < h0.length → (exec orc (Effects.sfInit ++ calls.flatten) (env, h0)).2[l]? = h0[l]? :=
   lifecycle_preserves orc _ _ sf_lifecycle_safe calls hc env h0
 
+/-- the evaluated objects keep a reference to the caller's kinematics dict; their constructors and
+`get_result` (for the TMC wrapper: the dispatch on the mode) store nothing through it -/
+theorem esf_lifecycles_leave_callers_objects (orc : Oracle) (env : Env) (h0 : Heap) :
+    (∀ calls : List (List Stmt), (∀ c ∈ calls, c ∈ Effects.esfObjMethods) →
+      ∀ l, l < h0.length → (exec orc (Effects.esfObjInit ++ calls.flatten) (env, h0)).2[l]? = h0[l]?) ∧
+    (∀ calls : List (List Stmt), (∀ c ∈ calls, c ∈ Effects.tmcObjMethods) →
+      ∀ l, l < h0.length → (exec orc (Effects.tmcObjInit ++ calls.flatten) (env, h0)).2[l]? = h0[l]?) :=
+  ⟨fun calls hc => lifecycle_preserves orc _ _ (by decide) calls hc env h0,
+   fun calls hc => lifecycle_preserves orc _ _ (by decide) calls hc env h0⟩
+
 theorem xs_lifecycle_leaves_callers_objects (orc : Oracle) (calls : List (List Stmt))
     (hc : ∀ c ∈ calls, c ∈ Effects.xsMethods) (env : Env) (h0 : Heap) :
     ∀ l, l < h0.length → (exec orc (Effects.xsInit ++ calls.flatten) (env, h0)).2[l]? = h0[l]? :=
@@ -563,13 +573,14 @@ def allowedEscapes : List String :=
    "observable_name.ObservableName", "XS", "SF", "obs.load", "interpolator.to_dict",
    "self.get_esf", "exs.EvaluatedCrossSection", "esf.EvaluatedStructureFunction", "tmc.ESFTMCmap[obs_name.kind]",
    "self.runner.get_sf(obs_name).get_esf", "self.runner.get_sf", "elem.get_result", "ESFResult", "ESFInfo",
+   "self.compute_local", "self._get_result_APFEL", "self._get_result_approx", "self._get_result_exact",
    "rich.console.Console", "logger.setLevel", "ekologger.setLevel", "RichHandler", "rh.setFormatter",
    "logger.addHandler", "ekologger.addHandler", "logging.FileHandler"]
 
 theorem escapes_known :
     ∀ e ∈ Effects.fromDictEscapes ++ Effects.runnerInitEscapes ++ Effects.sfLoadEscapes ++ Effects.xsLoadEscapes
         ++ Effects.esfInitEscapes ++ Effects.exsInitEscapes ++ Effects.tmcInitEscapes ++ Effects.sfLifeEscapes
-        ++ Effects.xsLifeEscapes,
+        ++ Effects.xsLifeEscapes ++ Effects.esfObjLifeEscapes ++ Effects.tmcObjLifeEscapes,
       e.1 ∈ allowedEscapes := by decide
 
 /-- the model can exhibit the failure: one store through a parameter, or one nested store through a
